@@ -353,7 +353,14 @@ func (fc *FnCtx) applyContract(c *Contract, cname string, names []string, typs [
 		if err != nil {
 			fc.unbound = append(fc.unbound, fmt.Sprintf("call %s panics %q: %v", cname, c.Panics.Text, err))
 		} else {
-			fc.oblige("pre-nopanic", cname+": !("+c.Panics.Text+")", pos, Not(t))
+			goal := Not(t)
+			if fc.c != nil && fc.c.Panics != nil {
+				// a panic of the callee is permitted where the caller's own contract permits a panic
+				if ct, cerr := fc.specBool(fc.entryEnv(), fc.c.Panics.Text); cerr == nil {
+					goal = Or(goal, ct)
+				}
+			}
+			fc.oblige("pre-nopanic", cname+": !("+c.Panics.Text+")", pos, goal)
 		}
 	}
 	_ = site
